@@ -9,6 +9,7 @@ import (
 	"io"
 	"regexp/syntax"
 	"sort"
+	"strconv"
 	"strings"
 
 	"github.com/plgd-dev/go-coap/v3/message"
@@ -31,6 +32,9 @@ type State struct {
 	chain  []string
 	hits   []hit
 	panick string // a panic inside ServeCOAP, caught by Handler (on a connection it would take the process down)
+	// caller is the application's own slice of middlewares last handed to Use as `Use(caller...)`; it has spare capacity
+	// and stays the application's property: what the application does with it later is none of the router's business
+	caller []mux.MiddlewareFunc
 }
 
 func New() *State { return &State{R: mux.NewRouter()} }
@@ -200,19 +204,55 @@ func (s *State) Register(f []string, w *bufio.Writer) bool {
 		s.R.DefaultHandleFunc(fn)
 		fmt.Fprintln(w, "ok")
 	case f[0] == "mw" && len(f) == 2:
-		name := f[1]
-		s.R.Use(func(next mux.Handler) mux.Handler {
-			return mux.HandlerFunc(func(w mux.ResponseWriter, r *mux.Message) {
-				s.chain = append(s.chain, "+"+name)
-				next.ServeCOAP(w, r)
-				s.chain = append(s.chain, "-"+name)
-			})
-		})
+		s.R.Use(s.mw(f[1]))
+		fmt.Fprintln(w, "ok")
+	case f[0] == "usev" && len(f) == 3:
+		// Use(caller...) with a slice the application owns and that has <spare> unused elements of capacity
+		spare, err := strconv.Atoi(f[1])
+		if err != nil || spare < 0 || spare > 64 {
+			return false
+		}
+		names := strings.Split(f[2], ",")
+		s.caller = make([]mux.MiddlewareFunc, 0, len(names)+spare)
+		for _, n := range names {
+			s.caller = append(s.caller, s.mw(n))
+		}
+		s.R.Use(s.caller...)
+		fmt.Fprintln(w, "ok")
+	case f[0] == "callerappend" && len(f) == 2:
+		// the application appends to ITS slice (as a second router's Use(caller...), Use(x) would do inside the shared array)
+		if s.caller != nil {
+			_ = append(s.caller, s.mw(f[1]))
+			sib := New()
+			sib.R.Use(s.caller...)
+			sib.R.Use(sib.mw(f[1] + "'"))
+		}
+		fmt.Fprintln(w, "ok")
+	case f[0] == "callerset" && len(f) == 3:
+		// the application overwrites an element of ITS slice
+		i, err := strconv.Atoi(f[1])
+		if err != nil {
+			return false
+		}
+		if i >= 0 && i < len(s.caller) {
+			s.caller[i] = s.mw(f[2])
+		}
 		fmt.Fprintln(w, "ok")
 	default:
 		return false
 	}
 	return true
+}
+
+// mw is a recording middleware: logs its name on the way in and on the way out.
+func (s *State) mw(name string) mux.MiddlewareFunc {
+	return func(next mux.Handler) mux.Handler {
+		return mux.HandlerFunc(func(w mux.ResponseWriter, r *mux.Message) {
+			s.chain = append(s.chain, "+"+name)
+			next.ServeCOAP(w, r)
+			s.chain = append(s.chain, "-"+name)
+		})
+	}
 }
 
 // Begin clears the record before a dispatch.
